@@ -121,12 +121,75 @@ func (p Printer) expr(e Expr, min int) string {
 		}
 		return s
 	case FnLit:
+		if p.Compact && allCode(t.Body) {
+			return "fn(" + strings.Join(t.Params, ", ") + ") " + p.inline(t.Body)
+		}
 		return "fn(" + strings.Join(t.Params, ", ") + ") { %>" + p.Nodes(t.Body) + "<% }"
 	}
 	panic(fmt.Sprintf("model: cannot print expr %T", e))
 }
 
+// allCode reports whether a block consists of silent statements only, so that
+// it can be printed inside one tag.
+func allCode(ns []Node) bool {
+	for _, n := range ns {
+		c, ok := n.(Code)
+		if !ok {
+			return false
+		}
+		switch t := c.S.(type) {
+		case IfS:
+			if !ifAllCode(t.If) {
+				return false
+			}
+		case ForS:
+			if !allCode(t.For.Body) {
+				return false
+			}
+		case LetS:
+			if f, ok := t.X.(FnLit); ok && !allCode(f.Body) {
+				return false
+			}
+		}
+	}
+	return true
+}
+
+func ifAllCode(i *If) bool {
+	if !allCode(i.Then) || (i.HasElse && !allCode(i.Else)) {
+		return false
+	}
+	for _, ei := range i.ElseIfs {
+		if !allCode(ei.Then) {
+			return false
+		}
+	}
+	return true
+}
+
+// inline prints an all-code block between braces inside the current tag.
+func (p Printer) inline(ns []Node) string {
+	var parts []string
+	for _, n := range ns {
+		parts = append(parts, p.Stmt(n.(Code).S))
+	}
+	if len(parts) == 0 {
+		return "{ }"
+	}
+	return "{\n" + strings.Join(parts, "\n") + "\n}"
+}
+
 func (p Printer) ifHead(i *If) string {
+	if p.Compact && ifAllCode(i) {
+		s := "if (" + p.expr(i.Cond, 0) + ") " + p.inline(i.Then)
+		for _, ei := range i.ElseIfs {
+			s += " else if (" + p.expr(ei.Cond, 0) + ") " + p.inline(ei.Then)
+		}
+		if i.HasElse {
+			s += " else " + p.inline(i.Else)
+		}
+		return s
+	}
 	var sb strings.Builder
 	sb.WriteString("if (" + p.expr(i.Cond, 0) + ") { %>")
 	sb.WriteString(p.Nodes(i.Then))
